@@ -408,10 +408,23 @@ Definition exec_send (e : env) (m : monexpr) (vs : vsource) (d : dest) (b : bals
   do (lf, b2, ps) <- eval_dest e d f b1;
   Ok (repay b2 lf, ps).
 
+(* no `allowing overdraft up to M` clause anywhere in the source (compiler: hasSpecificOverdraft) *)
+Fixpoint src_plain (s : source) : bool :=
+  match s with
+  | SAccount _ (OdUpTo _) => false
+  | SAccount _ _ => true
+  | SMaxed _ s' => src_plain s'
+  | SInOrder l => srcs_plain l
+  end
+with srcs_plain (l : sources) : bool := match l with SNil => true | SCons s tl => src_plain s && srcs_plain tl end.
+
+(* VisitMonetaryAll; with an overdraft clause in the source: FUNDING_SUM; [A 0]; MONETARY_ADD; DELETE *)
 Definition exec_send_all (e : env) (a : assetexpr) (s : source) (d : dest) (b : bals) : outcome (bals * list npost) :=
   do (f, b1) <- eval_source e (eval_asset e a) s b;
-  do (lf, b2, ps) <- eval_dest e d f b1;
-  Ok (repay b2 lf, ps).
+  if negb (src_plain s) && negb (String.eqb (fasset f) (eval_asset e a)) then Err EInvalidScript
+  else
+    do (lf, b2, ps) <- eval_dest e d f b1;
+    Ok (repay b2 lf, ps).
 
 (* OP_SAVE *)
 Definition save_amount (b : bals) (k : key) (all : bool) (amt : Z) : Z :=
@@ -460,7 +473,10 @@ Definition declared (te : tenv) (x : string) : bool := match lookup te x with So
 Definition chk_acc (te : tenv) (a : accexpr) : bool :=
   match a with AccLit s => valid_address s | AccVar x => has_ty te x TAccount end.
 Definition chk_asset (te : tenv) (a : assetexpr) : bool :=
-  match a with AssetLit s => lexer_asset s | AssetVar x => has_ty te x TAsset end.
+  match a with
+  | AssetLit s => lexer_asset s && valid_asset s   (* VisitLit: the ASSET token, then machine.ValidateAsset *)
+  | AssetVar x => has_ty te x TAsset
+  end.
 Fixpoint chk_mon (te : tenv) (m : monexpr) : bool :=
   match m with
   | MonLit a n => chk_asset te a && (0 <=? n)
@@ -472,7 +488,7 @@ Fixpoint chk_mon (te : tenv) (m : monexpr) : bool :=
 Definition q_in_unit (q : Q) : bool := Qle_bool 0 q && Qle_bool q 1.
 Definition chk_val (te : tenv) (v : valexpr) : bool :=
   match v with
-  | VEAcc s => valid_address s | VEAsset s => lexer_asset s | VENum n => 0 <=? n | VEStr _ => true
+  | VEAcc s => valid_address s | VEAsset s => lexer_asset s && valid_asset s | VENum n => 0 <=? n | VEStr _ => true
   | VEPortion q => q_in_unit q | VEMon m => chk_mon te m | VEVar x => declared te x
   end.
 
@@ -646,14 +662,6 @@ Fixpoint resolve_vars (decls : list vardecl) (given : list (string * value)) (s 
       end
   end.
 
-(* m.UnresolvedResourceBalances is keyed by ACCOUNT ADDRESS: of several balance() variables on one account only
-   the last declared one survives and receives an amount; the others keep a nil amount *)
-Fixpoint surviving (bv : list (string * key)) : list (string * key) :=
-  match bv with
-  | [] => []
-  | (x, k) :: tl => if existsb (fun yk => String.eqb (fst (snd yk)) (fst k)) tl then surviving tl else (x, k) :: surviving tl
-  end.
-
 (* NeededBalances: bounded source accounts of every send, with the send's asset *)
 Fixpoint src_needed (e : env) (s : source) : list string :=
   match s with
@@ -691,11 +699,11 @@ Definition resolve_balances (p : program) (s : store) (e : env) (bv : list (stri
   let nd := needed e p in
   if existsb (fun k => String.eqb (fst k) "world"%string) nd then Err EInvalidVars
   else
-    let sv := surviving bv in
-    if existsb (fun xk => store_balance s (snd xk) <? 0) sv then Err ENegativeAmount
+    (* every balance() variable is queried, checked for a negative balance and assigned *)
+    if existsb (fun xk => store_balance s (snd xk) <? 0) bv then Err ENegativeAmount
     else
-      let e1 := fold_left (fun e xk => set_env e (fst xk) (VMonetary (snd (snd xk)) (Some (store_balance s (snd xk))))) sv e in
-      let tracked := dedup_keys (nd ++ map snd sv) [] in
+      let e1 := fold_left (fun e xk => set_env e (fst xk) (VMonetary (snd (snd xk)) (Some (store_balance s (snd xk))))) bv e in
+      let tracked := dedup_keys (nd ++ map snd bv) [] in
       Ok (e1, map (fun k => (k, store_balance s k)) tracked).
 
 (* ------------------------------------------------------------------ the whole run *)
